@@ -1,1 +1,305 @@
-// Kani harnesses (cfg(kani) only); pulled in by a #[path] hook in /repo.
+// Kani harnesses for rustemo_compiler::table (cfg(kani) only; child module of `table`, so private items are in reach).
+// C05 (conflict resolution rule), C02 (resolution only removes candidates), C16 (no abort), C06 (sort_terminals), C01 (LRItem).
+use super::*;
+use crate::grammar::verif_kani_grammar::mk_assignment;
+use crate::grammar::{NonTerminal, Production};
+use crate::settings::verif_kani_settings::base as base_settings;
+use std::cell::RefCell;
+
+include!("/verif/build/gen/conflict_block.rs");
+
+fn any_assoc() -> Associativity {
+    match kani::any::<u8>() {
+        0 => Associativity::None,
+        1 => Associativity::Left,
+        _ => Associativity::Right,
+    }
+}
+
+fn mk_grammar(prods: Vec<Production>, terms: Vec<Terminal>) -> Grammar {
+    Grammar {
+        imports: Default::default(),
+        productions: ProdVec(prods),
+        terminals: TermVec(terms),
+        nonterminals: NonTermVec(vec![NonTerminal::default()]),
+        nonterm_by_name: BTreeMap::new(),
+        term_by_name: BTreeMap::new(),
+        empty_index: SymbolIndex(2),
+        stop_index: SymbolIndex(0),
+        augmented_index: SymbolIndex(3),
+        augmented_layout_index: None,
+        start_index: SymbolIndex(4),
+    }
+}
+
+#[derive(Clone, Copy, PartialEq, Eq)]
+enum A {
+    Shift,
+    Accept,
+    Reduce(usize, usize),
+}
+fn abs(a: &Action) -> A {
+    match a {
+        Action::Shift(_) => A::Shift,
+        Action::Accept => A::Accept,
+        Action::Reduce(p, l) => A::Reduce(p.0, *l),
+    }
+}
+fn count(v: &[A], x: A) -> usize {
+    let mut n = 0;
+    let mut i = 0;
+    while i < v.len() {
+        if v[i] == x { n += 1; }
+        i += 1;
+    }
+    n
+}
+/// same multiset (the property does not fix the order inside a cell)
+fn same_cell(got: &[A], want: &[A]) -> bool {
+    if got.len() != want.len() { return false; }
+    let mut i = 0;
+    while i < want.len() {
+        if count(got, want[i]) != count(want, want[i]) { return false; }
+        i += 1;
+    }
+    true
+}
+
+const NEW: usize = 3; // production index of the reduction being added
+
+/// The documented rule (C05 statement + docs/src/grammar_language.md "Disambiguation rules"), written independently
+/// of the code as a function from the cell and the scalar attributes to the expected cell.
+#[allow(clippy::too_many_arguments)]
+fn expected_cell(
+    cell0: &[A], new_len: usize, new_prod_len: usize, prio: u32, shift_prio: u32, prod_assoc: u8, term_assoc: u8,
+    prefer_shifts: bool, prefer_shifts_over_empty: bool, nops: bool, nopse: bool, empty: bool, lr: bool, red_prio: [u32; 2],
+) -> Vec<A> {
+    let new = A::Reduce(NEW, new_len);
+    let has_shift = count(cell0, A::Shift) + count(cell0, A::Accept) > 0;
+    let mut keep_shift = true;
+    let mut consider_reduce = true;
+    if has_shift {
+        if prio > shift_prio {
+            keep_shift = false; // the higher priority wins
+        } else if prio < shift_prio {
+            consider_reduce = false;
+        } else {
+            // equal priority: associativity decides, the terminal's overriding the production's
+            let assoc = if term_assoc != 0 { term_assoc } else { prod_assoc };
+            if assoc == 1 {
+                keep_shift = false; // left / reduce keeps the reduction
+            } else if assoc == 2 {
+                consider_reduce = false; // right / shift keeps the shift
+            } else {
+                let prefer = if empty { prefer_shifts_over_empty && !nopse } else { prefer_shifts && !nops };
+                if prefer { consider_reduce = false; } // otherwise both stay: reported (LR) or kept (GLR)
+            }
+        }
+    }
+    let mut out: Vec<A> = Vec::new();
+    let mut reduces: Vec<(A, u32)> = Vec::new();
+    let mut i = 0;
+    while i < cell0.len() {
+        match cell0[i] {
+            A::Shift | A::Accept => { if keep_shift { out.push(cell0[i]); } }
+            A::Reduce(p, _) => { reduces.push((cell0[i], red_prio[p - 1])); }
+        }
+        i += 1;
+    }
+    if !consider_reduce || reduces.is_empty() {
+        let mut j = 0;
+        while j < reduces.len() { out.push(reduces[j].0); j += 1; }
+        if consider_reduce { out.push(new); }
+        return out;
+    }
+    // reduce/reduce: strictly lower than all -> dropped; strictly higher than all -> replaces them
+    let mut lower_than_all = true;
+    let mut higher_than_all = true;
+    let mut j = 0;
+    while j < reduces.len() {
+        if !(prio < reduces[j].1) { lower_than_all = false; }
+        if !(prio > reduces[j].1) { higher_than_all = false; }
+        j += 1;
+    }
+    if lower_than_all {
+        let mut j = 0;
+        while j < reduces.len() { out.push(reduces[j].0); j += 1; }
+    } else if higher_than_all {
+        out.push(new);
+    } else if lr {
+        // LR prefers non-empty reductions over empty ones
+        let mut j = 0;
+        while j < reduces.len() {
+            if let A::Reduce(_, l) = reduces[j].0 { if l != 0 { out.push(reduces[j].0); } }
+            j += 1;
+        }
+        if new_prod_len > 0 || out.is_empty() { out.push(new); }
+    } else {
+        let mut j = 0;
+        while j < reduces.len() { out.push(reduces[j].0); j += 1; }
+        out.push(new);
+    }
+    out
+}
+
+/// bounded(cell <= 3 entries: at most one Shift/Accept and at most two earlier reductions; one harness per cell shape);
+/// every priority over the whole u32, both associativities over all three values, all flags, empty / non-empty
+/// production, LR / GLR, the lengths of the earlier reductions: symbolic.
+#[kani::proof]
+#[kani::unwind(7)]
+fn conflict_cell_s() { conflict_resolution_rule(true, false, 0) }
+#[kani::proof]
+#[kani::unwind(7)]
+fn conflict_cell_a() { conflict_resolution_rule(true, true, 0) }
+#[kani::proof]
+#[kani::unwind(7)]
+fn conflict_cell_sr() { conflict_resolution_rule(true, false, 1) }
+#[kani::proof]
+#[kani::unwind(7)]
+fn conflict_cell_ar() { conflict_resolution_rule(true, true, 1) }
+#[kani::proof]
+#[kani::unwind(7)]
+fn conflict_cell_r() { conflict_resolution_rule(false, false, 1) }
+#[kani::proof]
+#[kani::unwind(7)]
+fn conflict_cell_rr() { conflict_resolution_rule(false, false, 2) }
+#[kani::proof]
+#[kani::unwind(7)]
+fn conflict_cell_srr() { conflict_resolution_rule(true, false, 2) }
+
+fn conflict_resolution_rule(has_shift: bool, accept: bool, nred: usize) {
+    // ---- scalar attributes, all symbolic ----
+    let prio: u32 = kani::any();
+    let shift_prio: u32 = kani::any();
+    let red_prio: [u32; 2] = [kani::any(), kani::any()];
+    let prod_assoc = any_assoc();
+    let term_assoc = any_assoc();
+    let pa = match prod_assoc { Associativity::None => 0u8, Associativity::Left => 1, Associativity::Right => 2 };
+    let ta = match term_assoc { Associativity::None => 0u8, Associativity::Left => 1, Associativity::Right => 2 };
+    let nops: bool = kani::any();
+    let nopse: bool = kani::any();
+    let empty: bool = kani::any();
+    let lr: bool = kani::any();
+    let mut settings = base_settings(None, None);
+    settings.prefer_shifts = kani::any();
+    settings.prefer_shifts_over_empty = kani::any();
+    settings.parser_algo = if lr { ParserAlgo::LR } else { ParserAlgo::GLR };
+
+    // ---- grammar: productions 1, 2 are the reductions already in the cell, production 3 is the new one ----
+    let mk = |prio: u32, assoc: Associativity, nops: bool, nopse: bool, rhs: usize, idx: usize| Production {
+        idx: ProdIndex(idx),
+        nonterminal: NonTermIndex(0),
+        rhs: if rhs == 0 { vec![] } else { vec![mk_assignment(1)] },
+        assoc, prio, nops, nopse,
+        ..Production::default()
+    };
+    let prods = vec![
+        mk(10, Associativity::None, false, false, 1, 0),
+        mk(red_prio[0], Associativity::None, false, false, 1, 1),
+        mk(red_prio[1], Associativity::None, false, false, 1, 2),
+        mk(prio, prod_assoc, nops, nopse, if empty { 0 } else { 1 }, NEW),
+    ];
+    let terms = vec![
+        Terminal { idx: TermIndex(0), ..Default::default() },
+        Terminal { idx: TermIndex(1), assoc: term_assoc, ..Default::default() },
+    ];
+    let grammar = mk_grammar(prods, terms);
+    let prod_len = if empty { 0 } else { 1 };
+    // LR: the item reduces at its end; GLR (right-nulled): it may reduce earlier
+    let position: usize = if lr { prod_len } else { kani::any() };
+    kani::assume(position <= prod_len);
+    let item = LRItem { prod: ProdIndex(NEW), prod_len, rn_len: if lr { None } else { Some(position) }, position, follow: RefCell::new(Follow::new()) };
+    let new_reduce = Action::Reduce(ProdIndex(NEW), position);
+
+    // ---- the cell before: [Shift|Accept]? then 0..2 reductions (by production 1 / 2, length 0 or 1), not empty ----
+    let l1: usize = kani::any();
+    let l2: usize = kani::any();
+    kani::assume(l1 <= 1 && l2 <= 1);
+    let mut cell: Vec<Action> = Vec::new();
+    if has_shift { cell.push(if accept { Action::Accept } else { Action::Shift(StateIndex(7)) }); }
+    if nred >= 1 { cell.push(Action::Reduce(ProdIndex(1), l1)); }
+    if nred >= 2 { cell.push(Action::Reduce(ProdIndex(2), l2)); }
+    let mut cell0: Vec<A> = Vec::new();
+    let mut i = 0;
+    while i < cell.len() { cell0.push(abs(&cell[i])); i += 1; }
+
+    let mut state = LRState::new(&grammar, StateIndex(0), SymbolIndex(0));
+    if has_shift && !accept {
+        // group_per_next_symbol records a priority for every terminal that has a Shift in the state
+        state.max_prior_for_term.insert(TermIndex(1), shift_prio);
+    }
+    let eff_shift_prio = if accept { DEFAULT_PRIORITY } else { shift_prio };
+
+    // ---- run the real statements ----
+    let ctx = LiftCtx { settings: &settings, grammar: &grammar };
+    ctx.conflict_block(&state, &item, &grammar.productions[ProdIndex(NEW)], &grammar.terminals[TermIndex(1)], &mut cell, new_reduce);
+
+    // ---- compare with the documented rule ----
+    let mut got: Vec<A> = Vec::new();
+    let mut i = 0;
+    while i < cell.len() { got.push(abs(&cell[i])); i += 1; }
+    let want = expected_cell(&cell0, position, prod_len, prio, eff_shift_prio, pa, ta, settings.prefer_shifts,
+                             settings.prefer_shifts_over_empty, nops, nopse, empty, lr, red_prio);
+    assert!(same_cell(&got, &want), "C05: cell after resolution differs from the documented rule");
+    // C02: resolution only removes candidates (or adds the reduction under consideration)
+    let mut i = 0;
+    while i < got.len() {
+        assert!(got[i] == A::Reduce(NEW, position) || count(&cell0, got[i]) > 0, "C02: an action appeared from nowhere");
+        i += 1;
+    }
+    kani::cover!(!has_shift || (prio == eff_shift_prio && ta == 1 && pa == 2), "terminal left overrides production right");
+    kani::cover!(!has_shift || prio > eff_shift_prio, "higher-priority reduce meets a shift");
+    kani::cover!(nred == 0 || (lr && empty), "LR empty reduction meets earlier reductions");
+    kani::cover!(got.len() == cell0.len() + 1, "nothing resolved: everything kept");
+}
+
+/// C01: LRItem predicates.  complete (loop-free, all usize values).
+#[kani::proof]
+fn lr_item_predicates() {
+    let prod: usize = kani::any();
+    let prod_len: usize = kani::any();
+    let position: usize = kani::any();
+    let rn: Option<usize> = if kani::any() { Some(kani::any()) } else { None };
+    let item = LRItem { prod: ProdIndex(prod), prod_len, rn_len: rn, position, follow: RefCell::new(Follow::new()) };
+    assert!(item.is_kernel() == (position > 0 || prod == 0));
+    // without right-nulled lengths (LR tables) an item reduces exactly at the end of its production
+    if rn.is_none() {
+        assert!(item.is_reducing() == (position == prod_len));
+    } else {
+        assert!(item.is_reducing() == (position == prod_len || position >= rn.unwrap()));
+    }
+    if position < prod_len {
+        let next = item.inc_position();
+        assert!(next.position == position + 1 && next.position <= next.prod_len);
+        assert!(next.prod == ProdIndex(prod) && next.prod_len == prod_len && next.rn_len == rn);
+        assert!(next.is_kernel());
+    }
+}
+
+#[kani::proof]
+#[kani::unwind(7)]
+fn probe_setup_only() {
+    let prio: u32 = kani::any();
+    let mk = |prio: u32, rhs: usize, idx: usize| Production {
+        idx: ProdIndex(idx), nonterminal: NonTermIndex(0),
+        rhs: if rhs == 0 { vec![] } else { vec![mk_assignment(1)] },
+        prio, ..Production::default()
+    };
+    let prods = vec![mk(10, 1, 0), mk(prio, 1, 1)];
+    let terms = vec![Terminal { idx: TermIndex(0), ..Default::default() }, Terminal { idx: TermIndex(1), ..Default::default() }];
+    let grammar = mk_grammar(prods, terms);
+    let mut state = LRState::new(&grammar, StateIndex(0), SymbolIndex(0));
+    state.max_prior_for_term.insert(TermIndex(1), prio);
+    assert!(state.max_prior_for_term[&TermIndex(1)] == prio);
+    assert!(grammar.productions[ProdIndex(1)].prio == prio);
+    std::mem::forget(state);
+    std::mem::forget(grammar);
+}
+#[kani::proof]
+#[kani::unwind(7)]
+fn probe_vec_ops() {
+    let mut cell: Vec<Action> = vec![Action::Shift(StateIndex(7))];
+    let (shifts, reduces): (Vec<_>, Vec<_>) = cell.clone().into_iter().partition(|x| matches!(x, Action::Shift(_) | Action::Accept));
+    assert!(shifts.len() == 1 && reduces.is_empty());
+    if kani::any() { cell.retain(|x| !matches!(x, Action::Shift(_) | Action::Accept)); assert!(cell.is_empty()); }
+}
